@@ -83,7 +83,7 @@ func stripPrivate(m *fbb.Message, keys ...string) []byte {
 // ---- operations -------------------------------------------------------------------------------
 
 type c10Op struct {
-	Kind string `json:"kind"` // AddOut Prepare GetOutbound SetSent SetDeferred ProcessInbound GetInboundAnswer SetUnread Restart
+	Kind string `json:"kind"` // AddOut Prepare GetOutbound SetSent SetDeferred ProcessInbound ProcessInboundAll GetInboundAnswer SetUnread SetUnreadTwice Restart
 	I    int    `json:"i"`    // message / forwarder-list index
 	B    bool   `json:"b"`    // SetUnread value / Restart sendOnly
 }
@@ -127,13 +127,28 @@ func (m *c10Model) enabled() []c10Op {
 		for i := range c10In {
 			ops = append(ops, c10Op{Kind: "ProcessInbound", I: i}, c10Op{Kind: "GetInboundAnswer", I: i})
 		}
+		// several messages handed over in one call (the handler's signature is variadic), in both orders
+		ops = append(ops, c10Op{Kind: "ProcessInboundAll", I: 0}, c10Op{Kind: "ProcessInboundAll", I: 1})
 	}
 	for i, mid := range c10In {
 		if _, ok := m.In[mid]; ok {
 			ops = append(ops, c10Op{Kind: "SetUnread", I: i, B: true}, c10Op{Kind: "SetUnread", I: i, B: false})
+			// two marks on the same listed message value (list once, mark !B, then B)
+			ops = append(ops, c10Op{Kind: "SetUnreadTwice", I: i, B: true}, c10Op{Kind: "SetUnreadTwice", I: i, B: false})
 		}
 	}
 	return ops
+}
+
+// c10InOrder is the list of inbound MIDs in one of two orders.
+func c10InOrder(i int) []string {
+	out := append([]string{}, c10In...)
+	if i == 1 {
+		for a, b := 0, len(out)-1; a < b; a, b = a+1, b-1 {
+			out[a], out[b] = out[b], out[a]
+		}
+	}
+	return out
 }
 
 func normAddr(a string) string { return strings.ToUpper(fbb.AddressFromString(a).String()) }
@@ -193,6 +208,15 @@ func (m *c10Model) apply(o c10Op) string {
 		mid := c10In[o.I]
 		m.In[mid] = stripPrivate(c10BuildIn(mid), "X-Filepath", "X-Unread")
 		m.Unread[mid] = true
+		return "ok"
+	case "ProcessInboundAll":
+		for _, mid := range c10InOrder(o.I) {
+			m.In[mid] = stripPrivate(c10BuildIn(mid), "X-Filepath", "X-Unread")
+			m.Unread[mid] = true
+		}
+		return "ok"
+	case "SetUnreadTwice":
+		m.Unread[c10In[o.I]] = o.B
 		return "ok"
 	case "GetInboundAnswer":
 		switch {
@@ -320,6 +344,31 @@ func (r *c10Real) apply(o c10Op) (res string) {
 			return "error: " + err.Error()
 		}
 		return "ok"
+	case "ProcessInboundAll":
+		var msgs []*fbb.Message
+		for _, mid := range c10InOrder(o.I) {
+			msgs = append(msgs, c10BuildIn(mid))
+		}
+		if err := r.h.ProcessInbound(msgs...); err != nil {
+			return "error: " + err.Error()
+		}
+		return "ok"
+	case "SetUnreadTwice":
+		msgs, err := r.h.Inbox()
+		if err != nil {
+			return "error: " + err.Error()
+		}
+		for _, m := range msgs {
+			if m.MID() == c10In[o.I] {
+				for _, v := range []bool{!o.B, o.B} {
+					if err := mailbox.SetUnread(m, v); err != nil {
+						return "error: " + err.Error()
+					}
+				}
+				return "ok"
+			}
+		}
+		return "error: message not listed"
 	case "GetInboundAnswer":
 		p := fbb.NewProposal(c10In[o.I], "t", fbb.Wl2kProposal, []byte("x"))
 		return string(rune(r.h.GetInboundAnswer(*p)))
